@@ -111,6 +111,8 @@ const("REPLY_NODES_PER_FAMILY", "src/handler.rs",
       pattern=r'\.filter\(\|node\| node\.addr\(\)\.is_ipv4\(\)\)\s*\.take\((\d+)\)')
 const("REPLY_NODES_PER_FAMILY_V6", "src/handler.rs",
       pattern=r'\.filter\(\|node\| node\.addr\(\)\.is_ipv6\(\)\)\s*\.take\((\d+)\)')
+# --- bencode.rs (pre-scan limits introduced by the F14 fix)
+const("BENCODE_MAX_DEPTH", "src/bencode.rs", rust_name="MAX_DEPTH")
 # --- message.rs error codes
 const("SERVER_ERROR", "src/message.rs")
 const("PROTOCOL_ERROR", "src/message.rs")
